@@ -34,3 +34,11 @@ Definition vertex_B (jR2 nu2 : Z) (th2 : R) (rest : Z -> C) : Z -> R -> C :=
 
 (* spins consistent: lR - lc has the parity of J for every resonance helicity *)
 Definition parity_ok (J2 lc2 : Z) (r : res) : Prop := Z.even (r_j2 r - lc2 - J2) = true /\ (0 <= r_j2 r)%Z.
+
+(* several topologies interfering, spin-0 final particles (spectator helicity 0, no alignment rotations):
+   a topology = its angles before (phi1, th1, phi2), after (phi1', th1') with residual azimuth psi, and its resonances *)
+Record topo := mkTopo { t_phi1 : R; t_th1 : R; t_phi2 : R; t_phi1' : R; t_th1' : R; t_psi : R; t_rs : list res }.
+Definition total_amp_before (J2 : Z) (ts : list topo) (M : Z) : C :=
+  fold_right (fun t acc => Cadd (topo_amp J2 0 (t_phi1 t) (t_th1 t) (t_phi2 t) (t_rs t) M) acc) (0, 0) ts.
+Definition total_amp_after (J2 : Z) (ts : list topo) (M : Z) : C :=
+  fold_right (fun t acc => Cadd (topo_amp J2 0 (t_phi1' t) (t_th1' t) (t_phi2 t + t_psi t) (t_rs t) M) acc) (0, 0) ts.
